@@ -31,7 +31,9 @@ def run(ctx):
     ctx.rule("R9-map", "update_map: delete keys flow from the None arm of new_value.get(key); update_value(.., None) keys flow from new_value.iter()")
     ctx.rule("R9-recurse", "update_value passes the nested hydrate value to the matching reconciler")
     ctx.rule("R9-insert", "update_value (and its closures): a new element / object is *inserted* only on the edge where there is no old value at the position (old == None); otherwise the position is overwritten")
+    ctx.rule("R9-emptyroot", "batch_init_root_map: the bulk append of root ops without predecessors (BatchInsertion::new at the end of the op set) is edge-dominated by `the op set is empty`; on a document with content keys are overwritten one by one")
     f = ctx.facts()
+    check_init_root(ctx, f)
     # ---------------- update_list
     b = ctx.body(TI + "update_list")
     tgt = param_of_type(b, "automerge::hydrate::list::List")
@@ -133,3 +135,33 @@ def run(ctx):
             ctx.ob("R9-insert", k, ok, t["sp"], "only when there is no old value at the position" if ok else
                    "a value is inserted although the position already holds one (the insert is not behind old == None): the old element stays and the sequence grows past the target")
     ctx.floor("insert calls in update_value", n_ins, 1)
+
+
+def check_init_root(ctx, f):
+    b = ctx.body(TI + "batch_init_root_map")
+    ctx.analysed_fns.add(TI + "batch_init_root_map")
+    news = [(bi, t) for bi, t in b.calls() if (callee(t) or "").endswith("transaction::inner::BatchInsertion::new")]
+    ctx.floor("bulk insertions in batch_init_root_map", len(news), 1)
+    empty_edges = []
+    for sb, sw in b.switches():
+        src = b.bool_operand_source(sw["op"])
+        zero = [tb for v, tb in sw["targets"] if v == "0"]
+        if not src:
+            continue
+        if src["kind"] == "bin" and src["op"] in ("Gt", "Ne", "Eq", "Lt"):
+            ks = [util.op_const(o) for o in src["o"]]
+            if not any(k is not None and k.get("v") == "0" for k in ks):
+                continue
+            others = [o for o, k in zip(src["o"], ks) if k is None]
+            if len(others) != 1 or not any((norm_fn(c) or "").endswith("op_set::OpSet::len") for c in b.provenance(others[0], through_calls=False).callees()):
+                continue
+            is_empty_when_true = src["op"] == "Eq"
+            if src["negated"]:
+                is_empty_when_true = not is_empty_when_true
+            empty_edges += [(sb, sw["otherwise"])] if is_empty_when_true else ([(sb, zero[0])] if zero else [])
+        elif src["kind"] == "call" and (norm_fn(src["callee"]) or "").endswith("OpSet::is_empty"):
+            empty_edges += ([(sb, zero[0])] if zero else []) if src["negated"] else [(sb, sw["otherwise"])]
+    for k, (bi, t) in util.ordinal_keys(news, lambda it: "batch_init_root_map|bulk append"):
+        ok = any(b.edges_dominate([e], bi) for e in empty_edges)
+        ctx.ob("R9-emptyroot", k, ok, t["sp"], "only for an empty op set" if ok else
+               "root ops are appended at the end of the op set with no predecessors whatever the document holds: on a document with content the op set is out of order, old values stay on display and the saved document disagrees with the live one")
